@@ -165,6 +165,7 @@ type Obligation struct {
 	// results
 	Result SolveResult
 	File   string
+	RawScript string
 	Trivial bool // discharged by the simplifier
 	X       *Exec // execution context (for replay)
 	timeout int
@@ -173,6 +174,9 @@ type Obligation struct {
 func (o *Obligation) OK() bool {
 	if o.Trivial {
 		return true
+	}
+	if o.expect() == "notunsat" {
+		return o.Result.Status != "unsat" && o.Result.Status != "error"
 	}
 	return o.Result.Status == o.expect()
 }
@@ -212,7 +216,12 @@ func Discharge(obls []*Obligation, workdir string, timeoutS int) error {
 				continue
 			}
 		}
-		script := o.Bank.Script(o.Assume, o.Goal, o.chunks, o.Prelude, o.Axioms)
+		script := ""
+		if o.RawScript != "" {
+			script = o.RawScript
+		} else {
+			script = o.Bank.Script(o.Assume, o.Goal, o.chunks, o.Prelude, o.Axioms)
+		}
 		if len(script) > maxScriptBytes {
 			mu.Lock()
 			firstErr = fmt.Errorf("obligation %s: script of %d bytes exceeds the %d byte cap", o.Name, len(script), maxScriptBytes)
@@ -237,7 +246,7 @@ func Discharge(obls []*Obligation, workdir string, timeoutS int) error {
 			par <- struct{}{}
 			defer func() { <-par }()
 			to := timeoutS
-			if o.timeout > to {
+			if o.timeout > to || (o.timeout > 0 && o.expect() == "notunsat") {
 				to = o.timeout
 			}
 			o.Result = Solve(o.File, to, nil)
